@@ -21,3 +21,26 @@ Proof.
                                try (intros _; first [exact c_plus_comm | exact c_count_comm]) | ]).
   apply Forall_nil.
 Qed.
+
+(* ------------------------------------------------------------------ soundness of the reflected check *)
+Lemma wf_sb_sound : forall n, wf_sb n = true -> wf_s n.
+Proof.
+  induction n; simpl; intros H; auto;
+    try (apply andb_true_iff in H; destruct H as [H1 H2]; split; auto).
+Qed.
+
+Lemma acc_comm_sound : forall c, acc_comm_b c = true -> fold_comm (acc_interp c).
+Proof. intros [| |f] H; simpl in *; [exact c_plus_comm | exact c_count_comm | discriminate]. Qed.
+
+Lemma wf_rab_sound : forall r, wf_rab r = true -> wf_a (interp_a r).
+Proof.
+  induction r; simpl; intros H; auto; apply andb_true_iff in H; destruct H as [H1 H2].
+  - split; [apply wf_sb_sound; exact H1|]. intros O. rewrite O in H2. simpl in H2.
+    apply acc_comm_sound. exact H2.
+  - split; [apply wf_sb_sound; exact H1|]. intros O. congruence.
+  - split; [apply wf_sb_sound; exact H1 | exact H2].
+  - split; [apply wf_sb_sound; exact H1 | exact H2].
+Qed.
+
+Theorem wf_rb_sound : forall f, wf_rb f = true -> flow_wf (rinterp f).
+Proof. intros [n|r] H; simpl; [apply wf_sb_sound | apply wf_rab_sound]; exact H. Qed.
